@@ -16,7 +16,8 @@ roots and every setting of `-recurse`, `-vt-proto`, `-grpc`.  `run` is the argum
 | mapping for every proto under those paths without `go_package`, prefix-joined or the directory's Go package | `mapping_iff_no_go_package` (both directions), `mapping_to_every_requested_plugin` |
 | vtproto / grpc requested exactly when their flags are set | `plugins_iff_flags`, `requested_iff` |
 | `filepath.Ext(name) == ".proto"` is "the name ends in .proto" | `isProtoName_iff` |
-| `Run` on a file system = `run` on the directories found | `runFS_eq_run` |
+| `Run` on a file system = `run` on the directories found (input dir name without `=`) | `runFS_eq_run`, `cut_noEq` |
+| "directly inside" spelled out | `inScope_norecurse_iff` |
 
 Hypotheses, all about the INPUT (none is about the algorithm): `WFL` (a directory has no two
 entries of the same name) for "exactly once"; `RootOK` for the mapping theorem — the input directory
@@ -643,17 +644,41 @@ theorem single_invocation (pkgOf : Path → String) (fs : List Tree) (rq : Reque
     | none => simp
     | some roots => simp
 
+theorem cutChars_noEq (cs : List Char) (h : '=' ∉ cs) : cutChars cs = (cs, none) := by
+  induction cs with
+  | nil => rfl
+  | cons c cs ih =>
+    have hc : c ≠ '=' := fun e => h (by simp [e])
+    have := ih (fun hm => h (by simp [hm]))
+    simp [cutChars, hc, this]
+
+/-- `strings.Cut` leaves a string without `=` alone -/
+theorem cut_noEq (s : String) (h : '=' ∉ s.toList) : cut s = (s, none) := by
+  simp [cut, cutChars_noEq _ h]
+
 /-- for an input directory without `=` in its name, `Run` on a file system is `run` on the trees
 found at the resolved directories -/
 theorem runFS_eq_run (pkgOf : Path → String) (fs : List Tree) (rq : Request)
-    (hcut : cut rq.inputDir = (rq.inputDir, none)) {cs : List Tree}
+    (hne : '=' ∉ rq.inputDir.toList) {cs : List Tree}
     (hin : lookupDir fs rq.config.input = some cs) {incs : List Root}
     (hincs : rq.includes.mapM (resolveRoot fs rq.cwd) = some incs) :
     runFS pkgOf fs rq = some (run pkgOf rq.config cs incs) := by
   have hroot : resolveRoot fs rq.cwd rq.inputDir = some ⟨rq.config.input, none, cs⟩ := by
     have : absPath rq.cwd rq.inputDir = rq.config.input := rfl
-    simp [resolveRoot, hcut, this, hin]
+    simp [resolveRoot, cut_noEq _ hne, this, hin]
   simp [runFS, hin, List.mapM_cons, hroot, hincs, run]
+
+/-- without `-recurse`, "in scope" is "a regular `.proto` entry of the input directory itself" -/
+theorem inScope_norecurse_iff (root : Path) (cs : List Tree) (p : Path) :
+    InScope false root cs p ↔ ∃ n g, Tree.file n true g ∈ cs ∧ EndsWithProto n ∧ p = root ++ [n] := by
+  constructor
+  · rintro ⟨dirs, n, g, hf, hp, hd, rfl⟩
+    rcases hd with hd | rfl
+    · simp at hd
+    · cases hf with
+      | here hm => exact ⟨n, g, hm, hp, by simp⟩
+  · rintro ⟨n, g, hm, hp, rfl⟩
+    exact ⟨[], n, g, .here hm, hp, .inr rfl, by simp⟩
 
 /-! ### non-vacuity -/
 
